@@ -171,9 +171,13 @@ Qed.
 Definition int15 (d : dbl) : Prop := exists z, Z.abs z < 10 ^ 15 /\ deq d (dbl_of_int z) = true.
 
 (** What C04 assumes about strtod, sprintf "%d" / "%1.15g" / "%1.17g" and sscanf "%lg".
-    Every clause is a fact about the C library alone (no cJSON code involved), is used by a
-    named step of [number_roundtrip], and is evaluated on a table of boundary doubles with the
-    reference implementations in RoundTripEvidence.v. *)
+    Every clause except N4z is a fact about the C library alone (no cJSON code involved); each is
+    used by a named step of [number_roundtrip] and is evaluated on a table of boundary doubles
+    with the reference implementations in RoundTripEvidence.v.  S, V, N2 are proved for the
+    reference implementations (RoundTripEvidence.v, RoundTripRefValid.v, RoundTripRef.v); N4z is
+    proved for every library (RoundTripZero.v); the whole record is proved for an artificial
+    library (RoundTripModel.v: the clauses are jointly satisfiable).
+    [dbl_ok] restricts the "%g" clauses to values a C double can have. *)
 Record LibcRoundTripSpec (strtod : bytes -> option (dbl * nat)) (fmt_d : Z -> bytes)
        (fmt_g15 fmt_g17 : dbl -> bytes) (sscanf_lg : bytes -> option dbl) : Prop := {
   (* S: sscanf "%lg" and strtod are the same conversion *)
@@ -187,9 +191,12 @@ Record LibcRoundTripSpec (strtod : bytes -> option (dbl * nat)) (fmt_d : Z -> by
   (* N4: 15 significant digits survive decimal -> double -> decimal (DBL_DIG = 15) *)
   lr_g15_stable : forall d t k, is_finite d = true -> dbl_ok d ->
       strtod (fmt_g15 d) = Some (t, k) -> is_finite t = true -> fmt_g15 t = fmt_g15 d;
-  (* N4z: reading back "%1.15g" of a nonzero double does not underflow to zero *)
+  (* N4z: reading back "%1.15g" of a nonzero double does not give a zero that compare_double
+     accepts.  This clause holds for EVERY library — compare_double never equates zero with a
+     nonzero well-formed double: [RoundTripZero.g15_nonzero_free], proved with Flocq — and is a
+     field only so that the C04 theorems themselves do not depend on the axioms of the Reals *)
   lr_g15_nonzero : forall d t k, is_finite d = true -> dbl_ok d ->
-      strtod (fmt_g15 d) = Some (t, k) -> is_zero t = true -> is_zero d = true;
+      strtod (fmt_g15 d) = Some (t, k) -> compare_double t d = true -> is_zero t = true -> is_zero d = true;
   (* N5a: "%1.15g" of (double) of an int is what "%d" prints for that int *)
   lr_g15_int : forall z, int_range z = true -> fmt_g15 (dbl_of_int z) = fmt_d z;
   (* N5b: "%1.15g" of an integer below 10^15 reads back exactly *)
@@ -231,7 +238,7 @@ Section Number.
     destruct (deq t (dbl_of_int (sat_int t))) eqn:E2.
     - destruct (deq_true_cases _ _ E2) as [E | [Zt _]].
       + rewrite <- (lr_g15_int _ _ _ _ _ R (sat_int t) (int_of_ok t Hv)). rewrite <- E. exact Hst.
-      + rewrite (lr_g15_nonzero _ _ _ _ _ R d t k Hd Hvd Hs Zt) in Hnz. discriminate.
+      + rewrite (lr_g15_nonzero _ _ _ _ _ R d t k Hd Hvd Hs Hc Zt) in Hnz. discriminate.
     - rewrite Hst, Hsc. rewrite (compare_double_refl t (finite_not_nan t Ht)). reflexivity.
   Qed.
 
